@@ -1,4 +1,5 @@
 import MevCommit.Model.Usable
+import MevCommit.Model.UsableN
 open MevCommit MevCommit.Usable
 
 /-- invariant of the protocol with the waiting wrapper -/
@@ -75,3 +76,118 @@ theorem C20_without_wait_refused :
 /-- non-vacuity: the same schedule with the waiting wrapper, then the responder finishing -/
 example : (run true init [.iWriteFinal, .iReturn, .iOpenStream, .wrapperLookup, .rReadVerify, .rRegister,
     .rDone, .wrapperResume]).stream = .accepted := by decide
+
+/-! ## The lock-level model (`Model/UsableN`): counted in-flight records, four wrapper steps -/
+
+section LockLevel
+open MevCommit.UsableN
+
+/-- invariant of the lock-level model: the stream the initiator opened after its Connect returned
+is never refused, a waiter waits for the record that still counts the own handshake (or the peer is
+registered already), and a second look-up only happens once the peer is registered -/
+structure C20N_Inv (s : NSt) : Prop where
+  a : s.finalWritten = true → s.own ≠ .notBegun
+  b : s.iConnected = true → s.finalWritten = true
+  c : s.stream ≠ .notOpened → s.iConnected = true
+  d : (s.own = .registered ∨ s.own = .ended) → s.registered = true
+  e : s.stream = .recheck → s.registered = true
+  f : ∀ r, s.stream = .waiting r → s.registered = true ∨ (ownInFlight s = true ∧ s.cur = r)
+  g : s.stream ≠ .refused
+
+theorem C20N_inv_init : C20N_Inv ninit := by
+  constructor <;> simp [ninit]
+
+theorem C20N_step_inv (s : NSt) (x : NStep) (h : C20N_Inv s) : C20N_Inv (nstep true s x) := by
+  obtain ⟨a, b, c, d, e, f, g⟩ := h
+  cases x <;> simp only [nstep]
+  all_goals (try (split <;> first | exact ⟨a, b, c, d, e, f, g⟩ | skip))
+  all_goals (try (split <;> first | exact ⟨a, b, c, d, e, f, g⟩ | skip))
+  all_goals (try (constructor <;> simp_all [ownInFlight, count, closed, beginRec] <;> grind))
+  all_goals (cases hown : s.own <;> constructor <;> simp_all [ownInFlight, count])
+
+theorem C20N_run_inv (xs : List NStep) (s : NSt) (h : C20N_Inv s) : C20N_Inv (nrun true s xs) := by
+  induction xs generalizing s with
+  | nil => exact h
+  | cons x xs ih => exact ih _ (C20N_step_inv s x h)
+
+/-- **Usable as soon as connect succeeded, at the granularity of the locks**: for every
+interleaving of the initiator's steps, the own handshake handler, *any number of other inbound
+handshake handlers of the same remote peer beginning, registering and returning at arbitrary
+moments*, and the wrapper's four separately locked steps, the stream is never refused. -/
+theorem C20N_never_refused (xs : List NStep) : (nrun true ninit xs).stream ≠ .refused :=
+  (C20N_run_inv xs ninit C20N_inv_init).g
+
+theorem C20N_run_append (w : Bool) (s : NSt) (xs ys : List NStep) : nrun w s (xs ++ ys) = nrun w (nrun w s xs) ys := by
+  induction xs generalizing s with
+  | nil => rfl
+  | cons x xs ih => exact ih _
+
+/-- the wrapper without the record look-up (pinned tree) is refuted in this model too -/
+theorem C20N_without_wait_refused :
+    (nrun false ninit [.rBegin, .iWriteFinal, .iReturn, .iOpenStream, .w1, .w2, .w4]).stream = .refused := by decide
+
+/-- once every handshake handler of the peer has returned, the wrapper — from whichever of its
+steps it is at — ends by invoking the handler -/
+theorem C20N_quiescent_accepts (s : NSt) (h : C20N_Inv s) (hq : count s = 0) (ho : s.stream ≠ .notOpened) :
+    (nrun true s [.w1, .w2, .w3, .w4]).stream = .accepted := by
+  obtain ⟨a, b, c, d, e, f, g⟩ := h
+  have hreg : s.registered = true := by
+    cases hown : s.own <;> simp_all [ownInFlight, count]
+  cases hs : s.stream <;> simp_all [nrun, nstep, closed]
+
+/-- the other handlers return one by one -/
+theorem C20N_others_end (n : Nat) (s : NSt) (hn : s.others = n) :
+    nrun true s (List.replicate n .oEnd) = { s with others := 0 } := by
+  induction n generalizing s with
+  | zero => cases s; simp_all [nrun]
+  | succ n ih =>
+    have : 0 < s.others := by omega
+    simp only [List.replicate_succ, nrun, nstep, this, if_true]
+    rw [ih _ (by simp; omega)]
+
+/-- the own handler runs to its end once the final message is there -/
+theorem C20N_own_ends (s : NSt) (h : C20N_Inv s) (hf : s.finalWritten = true) :
+    (nrun true s [.rReadVerify, .rRegister, .rDone]).own = .ended := by
+  have := h.a hf
+  cases hown : s.own <;> simp_all [nrun, nstep]
+
+theorem C20N_own_ends_frame (s : NSt) :
+    (nrun true s [.rReadVerify, .rRegister, .rDone]).others = s.others ∧
+    (nrun true s [.rReadVerify, .rRegister, .rDone]).stream = s.stream := by
+  simp only [nrun, nstep]
+  repeat' split
+  all_goals simp
+
+/-- the schedule "the responder finishes all its handshake handlers, then the wrapper runs on" -/
+def completion (s : NSt) : List NStep :=
+  [.rReadVerify, .rRegister, .rDone] ++ (List.replicate s.others .oEnd ++ [.w1, .w2, .w3, .w4])
+
+/-- **no waiter is left behind**: from every state the invariant allows, the schedule in which the
+responder's handlers return leads the opened stream to `accepted` — the wait of
+`waitInboundHandshake` cannot deadlock, for any number of concurrent handlers -/
+theorem C20N_always_completable (s : NSt) (h : C20N_Inv s) (ho : s.stream ≠ .notOpened) :
+    (nrun true s (completion s)).stream = .accepted := by
+  have hf : s.finalWritten = true := h.b (h.c ho)
+  have h1 := C20N_run_inv [.rReadVerify, .rRegister, .rDone] s h
+  have hend := C20N_own_ends s h hf
+  obtain ⟨hoth, hstr⟩ := C20N_own_ends_frame s
+  unfold completion
+  rw [C20N_run_append, C20N_run_append]
+  generalize nrun true s [.rReadVerify, .rRegister, .rDone] = s1 at *
+  have h2 := C20N_run_inv (List.replicate s.others .oEnd) s1 h1
+  rw [C20N_others_end s.others s1 hoth] at h2 ⊢
+  apply C20N_quiescent_accepts _ h2
+  · simp [count, ownInFlight, hend]
+  · simpa [hstr] using ho
+
+/-- … in particular from every reachable state -/
+theorem C20N_reachable_completable (xs : List NStep) (ho : (nrun true ninit xs).stream ≠ .notOpened) :
+    (nrun true ninit (xs ++ completion (nrun true ninit xs))).stream = .accepted := by
+  rw [C20N_run_append]
+  exact C20N_always_completable _ (C20N_run_inv xs ninit C20N_inv_init) ho
+
+/-- non-vacuity: two further handlers of the same peer come and go around the waiter -/
+example : (nrun true ninit [.oBegin, .rBegin, .oEnd, .iWriteFinal, .iReturn, .iOpenStream, .oBegin, .w1, .w2,
+    .rReadVerify, .oEnd, .w3, .rRegister, .rDone, .w3, .w4]).stream = .accepted := by decide
+
+end LockLevel
